@@ -172,7 +172,44 @@ def rule_b(ctx, out):
             out.ok({"function": f.qual, "fresh": True})
 
 
+def rule_c(ctx, out):
+    """The discount for a folded constant is taken once per instruction: compute_binary de-duplicates on (expression, level), and
+    level must be the absolute position of the instruction for every consumer.  Every function that receives that position as
+    parameter `pos` and starts an operand search must hand the same value on (directly or through a local copy)."""
+    n = 0
+    for f in ctx.p.funcs_in(GO):
+        if "pos" not in f.params:
+            continue
+        cs = calls_in(f.node, "search_for_value_aux")
+        if not cs:
+            continue
+        assigns = single_assignments(f.node)
+        callee = ctx.func(f"{GO}.search_for_value_aux")
+        lvl = callee.params.index("level") if "level" in callee.params else 3
+        for c in cs:
+            n += 1
+            a = c.args[lvl] if len(c.args) > lvl else None
+            ok = False
+            seen = set()
+            while isinstance(a, ast.Name) and a.id not in seen:
+                if a.id == "pos":
+                    ok = True
+                    break
+                seen.add(a.id)
+                defs = assigns.get(a.id, [])
+                a = defs[0][1] if len(defs) == 1 and defs[0][2] is None else None
+            if ok:
+                out.ok({"function": f.name, "operand_search_level": "pos"})
+            else:
+                out.bad(f"{f.name}:operand-search-level-not-position", f"{f.name} starts the operand search with level `{norm(c.args[lvl]) if len(c.args) > lvl else '?'}` "
+                        f"instead of the position `pos` of the instruction: the same folded constant gets two de-duplication keys and its discount is "
+                        f"subtracted from init_progr_len twice", where(f, c))
+    if n < 3:
+        raise AnalysisError(f"only {n} operand searches started from positioned instructions found")
+
+
 RULES = [
+    ("C16.c", "the discount de-duplication level is the instruction's position", 3, rule_c),
     ("C16.a", "provenance of original_instrs", 4, rule_a),
     ("C16.b", "bound inputs are fresh per sub-block", 9, rule_b),
 ]
